@@ -130,7 +130,7 @@ def run(ctx):
         inst = FB.insts[k]
         b = M.Body(inst)
         for bb, t in b.calls():
-            p = M.callee_path(t)
+            p = M.callee_path(t) or ""
             if ".wrapping_" in p or "::wrapping_" in p:
                 saw_wrapping = True
             if "::unchecked_" in p or p.endswith("unreachable_unchecked") or "get_unchecked" in p:
